@@ -11,8 +11,9 @@ relabelled event variable is a node.
 from __future__ import annotations
 
 from functools import lru_cache
+import itertools as itt
 
-from ..ctf import base_assignments, event_json, event_from_json, events, ground_items, node_to_item, to_event
+from ..ctf import events2, base_assignments, event_json, event_from_json, events, ground_items, node_to_item, to_event
 from ..fscm import FSCM
 from ..graphs import G, enum_L, enum_O, is_acyclic
 from ..runner import Res
@@ -24,7 +25,7 @@ TITLE = "Counterfactual-graph construction preserves the event's probability"
 @lru_cache(maxsize=None)
 def _universe(tier):
     if tier == "quick":
-        return [g for n in (1, 2, 3) for g in enum_O(n)]
+        return [g for n in (1, 2, 3) for g in enum_L(n)]
     return [g for n in (1, 2, 3) for g in enum_L(n)] + list(enum_O(4, max_edges=3))
 
 
@@ -32,8 +33,8 @@ def event_space(g: G, tier):
     n = len(g.nodes)
     if n <= 3:
         if tier == "quick":
-            return events(g.nodes, 2, 2, 1)
-        return events(g.nodes, 2, 3, 2)
+            return events2(g.nodes)
+        return itt.chain(events(g.nodes, 2, 3, 2), (e for e in events2(g.nodes) if len(e) == 3))
     return events(g.nodes, 2, 2, 1)
 
 
@@ -46,8 +47,8 @@ def shards(tier):
 def describe(tier):
     return {
         "bound": (
-            "graphs O(1..3) name-ordered ADMGs; events: single items with up to 2 subscripts, pairs of items with up to 1 "
-            "subscript each"
+            "graphs L(1..3) all labelled ADMGs (edges may run against the node insertion order); events: single items with up "
+            "to 2 subscripts, pairs (up to 2 subscripts, up to 1 subscript), triples of one such item and two factual items"
             if tier == "quick"
             else "graphs L(1..3) all labelled ADMGs (single items with up to 3 subscripts, pairs with up to 2 each) + O(4, <=3 "
             "edges) (singles up to 2, pairs up to 1)"
